@@ -797,7 +797,11 @@ func (interp *Interpreter) cfg(root *node, sc *scope, importPath, pkgName string
 					if dest.typ.incomplete {
 						return
 					}
-					if sc.global || sc.isRedeclared(dest) {
+					if dest.ident == "_" && !sc.global {
+						// Each assignment to the blank identifier has a location of its own: the
+						// values discarded in one scope need not be of the same type.
+						sym = nil
+					} else if sc.global || sc.isRedeclared(dest) {
 						shadow := false
 						if n.anc != nil && n.anc.anc != nil && (hasForInit(n.anc.anc) || n.anc.anc.kind == rangeStmt) {
 							// check for redefine of for loop variables, which are now auto-defined in go1.22
